@@ -35,4 +35,9 @@ VARIANTS = [
     V("N-guard-order", A, "    slice_end = stop\n    if not right_closed:\n        slice_end = stop - eps\n\n    slice_start = start\n    if not left_closed:\n        slice_start = start + eps\n", "    slice_start = start\n    if not left_closed:\n        slice_start = start + eps\n\n    slice_end = stop\n    if not right_closed:\n        slice_end = stop - eps\n", None),
     # wave 6
     V("dimattrs-without-str-mixin(G.5)", "src/soundevent/arrays/attributes.py", "class DimAttrs(str, Enum):", "class DimAttrs(Enum):", "G.5"),
+    # wave 7
+    V("crop-dim-whole-axis-shortcut", "src/soundevent/arrays/operations.py", "    current_start, current_stop = get_dim_range(arr, dim)\n\n    if start is None:\n        left_closed = True",
+      "    current_start, current_stop = get_dim_range(arr, dim)\n\n    if start == current_start and stop == current_stop:\n        return arr\n\n    if start is None:\n        left_closed = True", "R17.2"),
+    V("N-crop-dim-nothing-requested-shortcut", "src/soundevent/arrays/operations.py", "    current_start, current_stop = get_dim_range(arr, dim)\n\n    if start is None:\n        left_closed = True",
+      "    current_start, current_stop = get_dim_range(arr, dim)\n\n    if start is None and stop is None:\n        return arr\n\n    if start is None:\n        left_closed = True", None),
 ]
